@@ -138,7 +138,16 @@ func GenConfig(r *simrt.Rand, p *Profile) *Config {
 			continue
 		}
 		// unique, declared with or without the index flag (a unique field is indexed anyway)
-		c.Cons[pth] = model.Cons{Index: r.Bool(), Unique: true}
+		k := model.Cons{Index: r.Bool(), Unique: true}
+		if stringPaths[pth] && r.Chance(1, 2) {
+			// uniqueness judged on canonical values
+			if r.Bool() {
+				k.Upper = true
+			} else {
+				k.Lower = true
+			}
+		}
+		c.Cons[pth] = k
 	}
 	for _, pth := range paths {
 		if _, ok := c.Cons[pth]; ok {
@@ -153,6 +162,9 @@ func GenConfig(r *simrt.Rand, p *Profile) *Config {
 		// the case transform non-idempotent, which is the harness type's business, not the database's
 		if stringPaths[pth] && pth != "Raw" && r.Intn(100) < p.CasePct {
 			k := c.Cons[pth]
+			if k.Upper || k.Lower {
+				continue // never both
+			}
 			if r.Bool() {
 				k.Upper = true
 			} else {
